@@ -133,7 +133,8 @@ def run(case, ctx):
                         % (wd.neighbour_script(),
                            (r3.stderr or r3.stdout)[-500:]))
     after = wd.snapshot(exclude=('test_x.py', os.path.join('ref', 'x')))
-    outs = {wd.out_name(f): f for f in case['files']}
+    outs = ({} if case['how'] in G.TMPDIR_HOWS else
+            {wd.out_name(f): f for f in case['files']})
     if wd.preexisting:
         out.label('history:outputs-exist-and-are-rewritten-with-old-mtime')
     for (rel, h) in before.items():
@@ -145,7 +146,6 @@ def run(case, ctx):
         elif after[rel] != h:
             out.violate('pre-existing-files-untouched', 'modified',
                         '%s was modified' % rel)
-    outs = {wd.out_name(f): f for f in case['files']}
     for (rel, f) in outs.items():
         p = os.path.join(wd.w, rel)
         if not os.path.exists(p):
